@@ -60,7 +60,14 @@ func (p Prop[C]) Run(t *testing.T) {
 	}
 	rapid.Check(t, func(rt *rapid.T) {
 		c := p.Gen(rt)
+		mark := MarkStall()
 		if fail := p.Exec(c, st); fail != nil {
+			if sr := mark.Since(); sr.Starved() {
+				// the process itself was not being scheduled while the case ran: whatever bound the
+				// case missed says nothing about the code under test (exit 2, never a VIOLATION)
+				st.Inconclusive(fmt.Sprintf("verdict %q discarded, this process was starved of CPU while the case ran (%s)", fail.Fingerprint, sr))
+				return
+			}
 			if st.Report(fail, c) {
 				return // known finding: counted, search continues
 			}
